@@ -1824,11 +1824,11 @@ void SZ_compress_args_double_NoCkRngeNoGzip_1D_pwr_pre_log(unsigned char** newBy
 	}
 	for(size_t i=0; i<dataLength; i++){
 		if(oriData[i] == 0){
-			log_data[i] = min_log_data - 3.0*realPrecision; //a zero decodes to at most min_log - 2*e, strictly below the threshold min_log - 1.5*e
+			log_data[i] = min_log_data - 3.0*realPrecision - 8*max_abs_log_data*2.23e-16; //a zero decodes to at most min_log - 2*e - 8 roundings, strictly below the threshold
 		}
 	}
     TightDataPointStorageD* tdps = SZ_compress_double_1D_MDQ(log_data, dataLength, realPrecision, valueRangeSize, medianValue_f);
-    tdps->minLogValue = min_log_data - 1.5*realPrecision; //the smallest magnitude decodes to at least min_log - e, strictly above
+    tdps->minLogValue = min_log_data - 1.5*realPrecision - 4*max_abs_log_data*2.23e-16; //the smallest magnitude decodes to at least min_log - e, strictly above; the margins are e/2 plus four roundings of the largest log value
     free(log_data);
     if(!positive){
 	    unsigned char * comp_signs;
@@ -1894,11 +1894,11 @@ void SZ_compress_args_double_NoCkRngeNoGzip_2D_pwr_pre_log(unsigned char** newBy
 	}
 	for(size_t i=0; i<dataLength; i++){
 		if(oriData[i] == 0){
-			log_data[i] = min_log_data - 3.0*realPrecision; //a zero decodes to at most min_log - 2*e, strictly below the threshold min_log - 1.5*e
+			log_data[i] = min_log_data - 3.0*realPrecision - 8*max_abs_log_data*2.23e-16; //a zero decodes to at most min_log - 2*e - 8 roundings, strictly below the threshold
 		}
 	}
     TightDataPointStorageD* tdps = SZ_compress_double_2D_MDQ(log_data, r1, r2, realPrecision, valueRangeSize, medianValue_f);
-    tdps->minLogValue = min_log_data - 1.5*realPrecision; //the smallest magnitude decodes to at least min_log - e, strictly above
+    tdps->minLogValue = min_log_data - 1.5*realPrecision - 4*max_abs_log_data*2.23e-16; //the smallest magnitude decodes to at least min_log - e, strictly above; the margins are e/2 plus four roundings of the largest log value
     free(log_data);
 
     if(!positive){
@@ -1965,11 +1965,11 @@ void SZ_compress_args_double_NoCkRngeNoGzip_3D_pwr_pre_log(unsigned char** newBy
 	}
 	for(size_t i=0; i<dataLength; i++){
 		if(oriData[i] == 0){
-			log_data[i] = min_log_data - 3.0*realPrecision; //a zero decodes to at most min_log - 2*e, strictly below the threshold min_log - 1.5*e
+			log_data[i] = min_log_data - 3.0*realPrecision - 8*max_abs_log_data*2.23e-16; //a zero decodes to at most min_log - 2*e - 8 roundings, strictly below the threshold
 		}
 	}
     TightDataPointStorageD* tdps = SZ_compress_double_3D_MDQ(log_data, r1, r2, r3, realPrecision, valueRangeSize, medianValue_f);
-    tdps->minLogValue = min_log_data - 1.5*realPrecision; //the smallest magnitude decodes to at least min_log - e, strictly above
+    tdps->minLogValue = min_log_data - 1.5*realPrecision - 4*max_abs_log_data*2.23e-16; //the smallest magnitude decodes to at least min_log - e, strictly above; the margins are e/2 plus four roundings of the largest log value
     free(log_data);
     if(!positive){
 	    unsigned char * comp_signs;
